@@ -572,19 +572,21 @@ def _install_public(X, stat, zero_mass=False):
         if isinstance(nm, str) or tuple(nm[0].shape) != old["shape"] + old["tail"]:
             return True
         w = b["weights"]
-        k = 3.0
-        w2 = (np.asarray(w[0], dtype=float) * k, w[1]) if isinstance(w, tuple) else np.asarray(w, dtype=float) * k
-        nm2 = _single_cell(self, old, normalise(call(self, stat, b, weights=w2), b["return_missing_as"]))
-        if isinstance(nm2, str):
-            return nm2
-        (v1, m1), (v2, m2) = nm, nm2
+        (v1, m1) = nm
         C = old["C"]
-        both = C & ~m1 & ~m2
-        with np.errstate(invalid="ignore"):
-            diff = (m1 != m2) | (both & ~(np.abs(v1 - v2) <= old["tol"]))
-        _percell(qual + "/ensures-weighted-invariant-under-weight-rescaling", C.sum(), C & diff, old,
-                 lambda i: "weighted quantile %r (missing %s) with weights w, %r (missing %s) with weights 3 w" % (
-                     _py(v1[i]), bool(m1[i]), _py(v2[i]), bool(m2[i])))
+        # law 2 for a moderate factor and for factors that move the weights to tiny / huge magnitudes
+        for k in (3.0, 2.0 ** -40, 2.0 ** 40):
+            w2 = (np.asarray(w[0], dtype=float) * k, w[1]) if isinstance(w, tuple) else np.asarray(w, dtype=float) * k
+            nm2 = _single_cell(self, old, normalise(call(self, stat, b, weights=w2), b["return_missing_as"]))
+            if isinstance(nm2, str):
+                return nm2
+            (v2, m2) = nm2
+            both = C & ~m1 & ~m2
+            with np.errstate(invalid="ignore"):
+                diff = (m1 != m2) | (both & ~(np.abs(v1 - v2) <= old["tol"]))
+            _percell(qual + "/ensures-weighted-invariant-under-weight-rescaling", C.sum(), C & diff, old,
+                     lambda i, k=k, v2=v2, m2=m2: "weighted quantile %r (missing %s) with weights w, %r (missing %s) with weights %r * w" % (
+                         _py(v1[i]), bool(m1[i]), _py(v2[i]), bool(m2[i]), k))
         return True
 
     ens = [("ensures-shape", shape_and_cells), ("ensures-companion-calls-well-formed", companions)]
